@@ -1309,6 +1309,7 @@ func (f *Frame) execMapUpdate(in *ssa.MapUpdate, st *State) {
 	mt := in.Map.Type().Underlying().(*types.Map)
 	e.check(f, st, "no-panic.nilmap", "assignment to entry in nil map", sNot(sEq(m.S, "0")), in.Pos())
 	e.guardCheckMap(f, st, in.Map, true, in.Pos())
+	e.rangeNoMutate(f, st, in.Block(), mt, m.S, in.Pos())
 	kt := e.keyTerm(k, mt.Key())
 	vt := v.S
 	if vt == "" {
@@ -1365,13 +1366,13 @@ func (f *Frame) execNext(in *ssa.Next, st *State) {
 	k := e.havocVal(mt.Key(), "mk", st)
 	e.assume(okT, fmt.Sprintf("(select (select %s %s) %s)", e.getMapD(st, mt), m, k.S))
 	if vis, ok := st.visited[rng]; ok {
-		// every iteration yields a key not yielded before; when the iteration ends every present key has been yielded
+		// every iteration yields a present key not yielded before; when the iteration ends the keys yielded are exactly the present keys
 		// (Go guarantees this for a map that is not inserted into while being ranged over - checked syntactically)
 		e.assume(okT, fmt.Sprintf("(not (select %s %s))", vis, k.S))
-		if !mapInsertedInLoop(rng, mt) {
+		{
 			ks := e.sortOf(mt.Key())
-			e.assume(sNot(okT), fmt.Sprintf("(forall ((k!v %s)) (! (=> (select (select %s %s) k!v) (select %s k!v)) :pattern ((select %s k!v)) :pattern ((select (select %s %s) k!v))))", ks, e.getMapD(st, mt), m, vis, vis, e.getMapD(st, mt), m))
-			e.assumed["range over a map yields every key exactly once (the map is not inserted into during the loop: checked syntactically per map type)"] = true
+			e.assume(sNot(okT), fmt.Sprintf("(forall ((k!v %s)) (! (= (and (not (= %s 0)) (select (select %s %s) k!v)) (select %s k!v)) :pattern ((select %s k!v)) :pattern ((select (select %s %s) k!v))))", ks, m, e.getMapD(st, mt), m, vis, vis, e.getMapD(st, mt), m))
+			e.assumed["range over a map yields every key exactly once (that the ranged map is not updated inside the loop is an obligation at every map update of the same type in the loop: range.nomutate)"] = true
 		}
 		st.visited[rng] = e.define("vis", "(Array "+e.sortOf(mt.Key())+" Bool)", sIte(okT, fmt.Sprintf("(store %s %s true)", vis, k.S), vis))
 	}
@@ -1382,6 +1383,41 @@ func (f *Frame) execNext(in *ssa.Next, st *State) {
 	tup := in.Type().(*types.Tuple)
 	f.set(in, Val{T: in.Type(), Tuple: []Val{{T: tup.At(0).Type(), S: okT}, k, vv}})
 	e.mapIterKey(f, rng, k.S, idx, okT)
+}
+
+// rangeNoMutate: a map update (insert/delete/clear) inside a range-over-map loop must not hit the ranged map itself,
+// otherwise the "every key exactly once" model of the iteration would not be justified.
+func (e *Engine) rangeNoMutate(f *Frame, st *State, blk *ssa.BasicBlock, mt *types.Map, m string, pos token.Pos) {
+	if f.parent != nil {
+		return
+	}
+	for rng := range st.visited {
+		rmt, ok := rng.X.Type().Underlying().(*types.Map)
+		if !ok || !types.Identical(rmt, mt) || rng.Parent() != f.fn {
+			continue
+		}
+		// the innermost loop that contains the Next of this range
+		var body map[*ssa.BasicBlock]bool
+		for _, b := range f.fn.Blocks {
+			for _, in := range b.Instrs {
+				if n, ok := in.(*ssa.Next); ok && n.Iter == ssa.Value(rng) {
+					for _, l := range f.loopOf[b] {
+						if body == nil || len(l.Blocks) < len(body) {
+							body = l.Blocks
+						}
+					}
+				}
+			}
+		}
+		if body == nil || blk == nil || !body[blk] {
+			continue
+		}
+		rv, ok := f.vals[rng.X]
+		if !ok || rv.S == "" {
+			continue
+		}
+		e.check(f, st, "range.nomutate", "a map updated inside a range-over-map loop is not the map being ranged over", sNot(sEq(m, rv.S)), pos)
+	}
 }
 
 // mapInsertedInLoop: some instruction of the function inserts into (or deletes from) a map of the ranged map's type.
